@@ -965,3 +965,17 @@ pub fn fp(m: &Message) -> String {
     };
     format!("storage={:?} header={:?} ext={:?} payload={}", m.storage_header, m.header, m.extended_header, payload)
 }
+
+/// the constructor configuration that describes a reference message (Message::new)
+pub fn config_of(m: &RefMsg) -> MessageConfig {
+    MessageConfig {
+        version: m.version,
+        counter: m.mcnt,
+        endianness: endianness_of(m.big),
+        ecu_id: m.ecu.clone(),
+        session_id: m.session,
+        timestamp: m.timestamp,
+        payload: payload_to_crate(&m.payload),
+        extended_header_info: m.ext.as_ref().map(|e| ExtendedHeaderConfig { message_type: message_type_of(e.mstp, e.mtin), app_id: e.apid.clone(), context_id: e.ctid.clone() }),
+    }
+}
